@@ -7,6 +7,7 @@ CONSTANTS
   FixRestart = FALSE
   PruneOutsideLock = FALSE
   WeakRegistry = FALSE
+  AutoFinally = TRUE
   HeldSet <- H_true
   Hist = FALSE
   Atomic = FALSE
